@@ -45,6 +45,14 @@ def build(tier, ctx):
                     itertools.combinations_with_replacement(wi3, 3)]
     for i in range(0, len(wstores), 40):
         tasks.append({"window": True, "stores": wstores[i:i + 40]})
+    # scale: root pages and id lists around the sizes at which SQL statements
+    # are usually chunked (500 / 900 / 999 / 1000), default batch size
+    sizes = [(501, 1000), (901, 1000), (1001, 1000), (1201, 1000),
+             (1001, 2000)]
+    if tier == "thorough":
+        sizes += [(n, bs) for n in (999, 1000, 1499, 1801, 2001)
+                  for bs in (1000, 5000)] + [(1001, 400), (1201, 500)]
+    tasks[:0] = [{"scale": [sz], "stores": []} for sz in sizes]
     return tasks
 
 
@@ -139,7 +147,14 @@ def run_window_store(store):
     return n, bad
 
 
-def run_store(store):
+def scale_store(n):
+    """n traces over both names cycling through every shape with <= 3
+    nodes: many traces per shape, far more than any small store"""
+    it = items(3)
+    return [it[(k * 7) % len(it)] for k in range(n)]
+
+
+def run_store(store, batches=BATCHES, orders=None):
     bad = []
     n = 0
     traces = [om.spans_of(sh, f"j{k}", nm) for k, (nm, sh) in enumerate(store)]
@@ -148,8 +163,10 @@ def run_store(store):
         exp.setdefault(nm, set()).add(om.shape_canon(sh))
     reps = {}
     paged = 0
-    for bs in BATCHES:
+    for bs in batches:
         for on, order in om.ingestion_orders(traces).items():
+            if orders and on not in orders:
+                continue
             n += 1
             if len(store) > bs:
                 paged += 1
@@ -202,6 +219,17 @@ def handle(task):
                 b["store"] = store
                 out.append(b)
         return {"n": n, "bad": out, "paged": 0, "window_runs": n}
+    if task.get("scale"):
+        for nt, bs in task["scale"]:
+            k, bad, pg, nreps = run_store(scale_store(nt), (bs,),
+                                          ("seq", "rev"))
+            n += k
+            paged += pg
+            for b in bad:
+                b["scale"] = [nt, bs]
+                b.pop("selected", None)
+                out.append(b)
+        return {"n": n, "bad": out, "paged": paged, "scale_runs": n}
     for store in task["stores"]:
         store = [(nm, _tt(sh)) for nm, sh in store]
         k, bad, pg, nreps = run_store(store)
@@ -222,7 +250,7 @@ def collect(tier, tasks, results, ctx):
     n = paged = 0
     nstores = 0
     nontrivial = 0
-    wruns = 0
+    wruns = sruns = 0
     for t, r in zip(tasks, results):
         n += r["n"]
         paged += r["paged"]
@@ -232,7 +260,18 @@ def collect(tier, tasks, results, ctx):
             cs = [(x[0], om.shape_canon(_tt(x[1]))) for x in st]
             if len(set(cs)) < len(cs):
                 nontrivial += 1
+        sruns += r.get("scale_runs", 0)
         for b in r["bad"]:
+            if b.get("scale"):
+                viol.append({
+                    "key": input_key(["C09", "scale", b["scale"],
+                                      b["order"]]),
+                    "what": f"{b['scale'][0]} traces cycling through all "
+                            f"shapes, batch={b['bs']} order={b['order']}: "
+                            f"{b['problem']}",
+                    "input": {"scale": b["scale"], "order": b["order"]},
+                    "observed": b})
+                continue
             viol.append({
                 "key": input_key(["C09", b["store"], b["bs"], b["order"],
                                   bool(b.get("window"))]),
@@ -256,7 +295,7 @@ def collect(tier, tasks, results, ctx):
                 "2 workflow names) x 4 batch sizes x 4 ingestion orders; "
                 "non-trivial = distinct stores holding two traces of the same "
                 "name and the same shape up to sibling order",
-        "samples": [{"store": tasks[len(tasks) // 2]["stores"][0],
+        "samples": [{"store": [t for t in tasks if t["stores"]][0]["stores"][0],
                      "batch_sizes": list(BATCHES),
                      "orders": ["seq", "rev", "childfirst", "rr"]}],
         "exhaustive": True,
@@ -266,6 +305,7 @@ def collect(tier, tasks, results, ctx):
                         "exactly 4 nodes"},
         "stores": nstores, "runs_needing_several_root_pages": paged,
         "runs_with_buffered_time_window": wruns,
+        "scale_runs_500_to_2000_traces": sruns,
         "states_meaning": "stores (initial database contents) explored; "
                           "transitions = configurations (batch size x "
                           "ingestion order) executed on the real code",
@@ -277,6 +317,10 @@ def collect(tier, tasks, results, ctx):
 
 def replay(rec, ctx):
     i = rec["input"]
+    if i.get("scale"):
+        n, bad, _, _ = run_store(scale_store(i["scale"][0]),
+                                 (i["scale"][1],), (i["order"],))
+        return bool(bad), repr([b["problem"] for b in bad])[:300]
     if i.get("window"):
         store = [(nm, _tt(sh), pl) for nm, sh, pl in i["store"]]
         n, bad = run_window_store(store)
